@@ -532,6 +532,57 @@ theorem connection_choice_bmp (conns : List (List Int)) (c f b : Int) :
     ([c, f, b] ∉ conns → [c, f] ∉ conns → bmpConnection conns c f b = .error .noConnection) := by
   refine ⟨?_, ?_, ?_⟩ <;> intros <;> simp_all [bmpConnection]
 
+/-! ## the dimensions stored by `discover_connections` -/
+
+theorem le_maxOf (l : List Nat) (a : Nat) (h : a ∈ l) : a ≤ maxOf l := by
+  induction l with
+  | nil => simp at h
+  | cons b t ih =>
+    simp only [List.mem_cons] at h
+    simp only [maxOf]
+    rcases h with h | h
+    · subst h; exact Nat.le_max_left _ _
+    · exact Nat.le_trans (ih h) (Nat.le_max_right _ _)
+
+theorem maxOf_mem (l : List Nat) (h : l ≠ []) : maxOf l ∈ l := by
+  induction l with
+  | nil => exact absurd rfl h
+  | cons b t ih =>
+    simp only [maxOf]
+    cases t with
+    | nil => simp [maxOf]
+    | cons c u =>
+      have := ih (by simp)
+      by_cases hb : maxOf (c :: u) ≤ b
+      · rw [Nat.max_eq_left hb]; simp
+      · rw [Nat.max_eq_right (by omega)]; exact List.mem_cons_of_mem _ this
+
+/-- **Dimensions.**  The width and height `discover_connections` stores cover every chip the P2P
+table has a route to, and are tight in each direction separately: some working chip lies in the last
+column and some - possibly another one - in the last row.  (So dead chips in the top right corner
+shrink neither dimension as long as their column and their row have a working chip elsewhere.) -/
+theorem discoveredDims_covers (ws : List (Nat × Nat)) (w h : Nat) (hd : discoveredDims ws = some (w, h)) :
+    (∀ c ∈ ws, c.1 < w ∧ c.2 < h) ∧ (∃ c ∈ ws, c.1 + 1 = w) ∧ (∃ c ∈ ws, c.2 + 1 = h) := by
+  unfold discoveredDims at hd
+  split at hd
+  · cases hd
+  · rename_i hne
+    simp only [Option.some.injEq, Prod.mk.injEq] at hd
+    obtain ⟨hw, hh⟩ := hd
+    have hne' : ws ≠ [] := by intro e; simp [e] at hne
+    refine ⟨fun c hc => ⟨?_, ?_⟩, ?_, ?_⟩
+    · have := le_maxOf (ws.map (·.1)) c.1 (List.mem_map.mpr ⟨c, hc, rfl⟩); omega
+    · have := le_maxOf (ws.map (·.2)) c.2 (List.mem_map.mpr ⟨c, hc, rfl⟩); omega
+    · obtain ⟨c, hc, he⟩ := List.mem_map.mp (maxOf_mem (ws.map (·.1)) (by simpa using hne'))
+      exact ⟨c, hc, by omega⟩
+    · obtain ⟨c, hc, he⟩ := List.mem_map.mp (maxOf_mem (ws.map (·.2)) (by simpa using hne'))
+      exact ⟨c, hc, by omega⟩
+
+/-- a machine whose only dead chip is the top right corner keeps both dimensions; with the whole top
+row dead the height shrinks -/
+example : discoveredDims (workingChips 4 3 [(3, 2)]) = some (4, 3) := by decide
+example : discoveredDims (workingChips 3 3 [(0, 2), (1, 2), (2, 2)]) = some (3, 2) := by decide
+
 /-! ## non-vacuity / worked instances on the generated signatures -/
 
 /-- `with mc(x=9, y=2): with mc(p=3): mc.read(0x100, 4, x=1)` under the initial context -/
